@@ -20,6 +20,9 @@ import (
 	"rcproxy/core/codec"
 )
 
+// maxRespLen is the largest count or bulk length a redis server accepts
+const maxRespLen = 512 * 1024 * 1024
+
 func parseLen(p []byte) (int, error) {
 	if len(p) < 1 {
 		return -1, errors.New("malformed length")
@@ -41,6 +44,11 @@ func parseLen(p []byte) (int, error) {
 			return -1, codec.ErrInvalidResp
 		}
 		n += int(b - '0')
+		// redis refuses counts and lengths above 512 MB (proto-max-bulk-len); stopping here also keeps
+		// a long run of digits from wrapping around the integer range onto a small, plausible value
+		if n > maxRespLen {
+			return -1, codec.ErrInvalidResp
+		}
 	}
 
 	return n, nil
